@@ -66,6 +66,36 @@ func reachable(t reflect.Type) *reach {
 
 var codecNamable = reflect.TypeOf((*hessian.CodecNamable)(nil)).Elem()
 
+// declaredWireName: the wire name a type DECLARES with HessianCodecName. A struct that embeds a custom-named
+// struct has the method by promotion only (it answers with the embedded type's name, or cannot be called at
+// all through a nil embedded pointer): it declares none and keeps its Go name.
+func declaredWireName(t reflect.Type) (name string, ok bool) {
+	if !t.Implements(codecNamable) {
+		return "", false
+	}
+	defer func() {
+		if recover() != nil {
+			name, ok = "", false
+		}
+	}()
+	name = reflect.Zero(t).Interface().(hessian.CodecNamable).HessianCodecName()
+	if t.Kind() == reflect.Struct {
+		for i := 0; i < t.NumField(); i++ {
+			f := t.Field(i)
+			ft := f.Type
+			if ft.Kind() == reflect.Ptr {
+				ft = ft.Elem()
+			}
+			if f.Anonymous && ft.Implements(codecNamable) {
+				if en, eok := declaredWireName(ft); eok && en == name {
+					return "", false
+				}
+			}
+		}
+	}
+	return name, true
+}
+
 // closed checks closure and mutual consistency of (tm, nm) for type t.
 func closed(t reflect.Type, tm map[string]reflect.Type, nm map[string]string) string {
 	rc := reachable(t)
@@ -74,11 +104,12 @@ func closed(t reflect.Type, tm map[string]reflect.Type, nm map[string]string) st
 		if !ok {
 			return fmt.Sprintf("name map has no entry for struct type %v (key %q)", st, st.Name())
 		}
-		if st.Implements(codecNamable) {
-			want := reflect.Zero(st).Interface().(hessian.CodecNamable).HessianCodecName()
+		if want, declares := declaredWireName(st); declares {
 			if wire != want {
 				return fmt.Sprintf("name map gives %v the wire name %q, its HessianCodecName is %q", st, wire, want)
 			}
+		} else if wire != st.Name() && st.Implements(codecNamable) {
+			return fmt.Sprintf("name map gives %v the wire name %q: it declares none of its own (HessianCodecName is promoted from an embedded struct)", st, wire)
 		}
 		if got, ok := tm[wire]; !ok || got != st {
 			return fmt.Sprintf("type map does not map wire name %q back to %v (got %v)", wire, st, got)
@@ -242,8 +273,7 @@ func TestC16(t *testing.T) {
 				directFail(t, "C16", map[string]interface{}{"type": tt.String(), "entry": "TypeMapOf"}, "C16 TypeMapOf(%v): a second call returned %d entries, the first %d: the caller's changes to the first result leaked into it", tt, len(tm), len(keys))
 			}
 			for _, st := range reachable(tt).structs {
-				if st.Implements(codecNamable) {
-					wire := reflect.Zero(st).Interface().(hessian.CodecNamable).HessianCodecName()
+				if wire, declares := declaredWireName(st); declares {
 					if got, ok := tm[wire]; !ok || got != st {
 						directFail(t, "C16", map[string]interface{}{"type": tt.String(), "entry": "TypeMapOf"}, "C16 TypeMapOf(%v) does not map the wire name %q back to %v (has %v)", tt, wire, st, mapKeys(tm))
 					}
